@@ -120,9 +120,14 @@ def run(chk, scratch):
         for i, rd in enumerate(w.reads[n0:]):
             rd.tags = [("RG", "g%d" % (i % 3))]
             rd.file_idx = i % 2
+        # a group that is absent from the chromosome processed first (the longest one)
+        longest = max(w.chrom_order, key=w.chrom_len)
+        for rd in w.reads:
+            if rd.chrom == longest and dict(rd.tags).get("RG") == "g0":
+                rd.tags = [("RG", "g1")]
         pipeline.write_world(w, d)
         out = os.path.join(d, "out")
-        r = pipeline.run(d, out, data_type=dt, threads=2, extra=["--count_exons", "--read_group", "tag:RG", "--matching_strategy", strat,
+        r = pipeline.run(d, out, data_type=dt, threads=1 + seed % 2, extra=["--count_exons", "--read_group", "tag:RG", "--matching_strategy", strat,
                                                                   "--no_model_construction"])
         return job, d, w, out, r
     rows_checked = 0
